@@ -27,6 +27,11 @@ def reshape(self, shape, recursive=True):
 
     if shape:
         new_values = np.asarray(self._values_).reshape(shape + self.item)
+    elif self._size_ != 1:
+        raise ValueError('cannot reshape %s of shape %s into shape ()'
+                         % (type(self).__name__, self._shape_))
+    elif self._rank_:
+        new_values = np.asarray(self._values_).reshape(self.item)
     else:
         new_values = np.asarray(self._values_).ravel()[0]
 
